@@ -51,8 +51,14 @@ func parseDecCase(c string) (decCaseT, bool) {
 }
 
 func addViolation(res *RunResult, c, impl, what string) {
-	if len(res.Violations) < 20 {
-		res.Violations = append(res.Violations, Mismatch{Case: c, Impl: clip(impl), Model: "(property oracle) " + what, Where: what})
+	nOracle := 0
+	for _, v := range res.Violations {
+		if v.Kind == "oracle" {
+			nOracle++
+		}
+	}
+	if nOracle < 20 {
+		res.Violations = append(res.Violations, Mismatch{Case: c, Impl: clip(impl), Model: "(property oracle) " + what, Where: what, Kind: "oracle"})
 	}
 	res.Stats.NMismatch++
 }
